@@ -36,6 +36,7 @@ from webob.headers import ResponseHeaders
 from webob.request import BaseRequest
 from webob.util import (
     bytes_,
+    read_text_body,
     status_generic_reasons,
     status_reasons,
     text_,
@@ -387,7 +388,14 @@ class Response:
             value = value.strip(_ws)
             headerlist.append((text_(header_name, "latin-1"), text_(value, "latin-1")))
         r = cls(status=status, headerlist=headerlist, app_iter=())
-        body = fp.read(r.content_length or 0)
+        length = r.content_length or 0
+
+        if is_text:
+            # Content-Length counts the bytes of the encoded text
+            encoding = r.charset or r.default_body_encoding or "utf-8"
+            body = read_text_body(fp, length, encoding)
+        else:
+            body = fp.read(length)
         # no body has been set so far: setting it below must not discard a
         # Content-MD5 header that was read from the file
         r._app_iter = None
